@@ -171,6 +171,7 @@ def run_jobs_list(quick=True):
         dict(n=10, batch_size=None, max_iter=60, patience=5, validation=True, reuse_stopper=True),
         dict(n=10, batch_size=None, max_iter=60, patience=5, validation=True, reuse_stopper="failed"),
         dict(n=12, batch_size=5, max_iter=40, patience=40, validation=False),         # no early stopping, >= 30 its
+        dict(n=10, batch_size=7, max_iter=30, patience=30, validation=False, batch_seed=2),   # one full batch that does not cover the data
         dict(n=10, batch_size=None, max_iter=30, patience=4, atol=0.5, validation=True),
         dict(n=9, batch_size=4, max_iter=25, patience=3, rtol=0.05, atol=0.0, validation=True, prune=False),
         dict(n=8, batch_size=2, max_iter=12, patience=3, validation=True, restore=False, lr=0.5),
